@@ -12,6 +12,8 @@ from engine.util import own_nodes, calls_with_nodes, where
 from rules.c06 import check_operator_table
 
 RULES = {
+    "R-07.11": "record-set equality compares the whole identity: Rdataset.__eq__ refuses on every field that Rdataset.match() takes (class, type, covered type) and then compares the members (super().__eq__); RRset.__eq__ adds the owner name and delegates to it - a dropped field makes an `example. CH A` question equal to `example. IN A` (dns.message.is_response compares questions with it)",
+    "R-07.10": "the `self is other` shortcuts of dns.set.Set obey the idempotence laws: s|s = s and s&s = s (nothing to do), s-s = s^s = {} (clear), s<=s and s>=s (True); isdisjoint(s, s) is True only for the empty set, so it has no constant shortcut",
     "R-07.1": "Name, every Rdata subclass and their helper value classes carry @dns.immutable.immutable",
     "R-07.2": "every field stored by an immutable class's __init__ has an immutable kind (validator result, tuple/float/int/str/bytes, enum make, constify/Dict, constant, Name) – never a bare unvalidated parameter",
     "R-07.3": "Rdata.__eq__ and __hash__ derive from the same to_digestable image; ordering dunders follow the operator table over _cmp; _cmp is a mirrored three-way comparison of the digestable forms",
@@ -454,6 +456,58 @@ def run(model, rep, tier):
                   f"`{src(a.ast)}` is reachable without `no_copy` being true (the condition is not a conjunction containing no_copy): a plain dict passed by a caller is wrapped in place, "
                   "so SVCB/HTTPS params and ImmutableRdataset items change when the caller's dict is edited afterwards", stmt="dict-alias-gate")
     rep.assume("R-07.5 considers the refusals raised by Rdataset.add itself; exceptions raised by callees (e.g. dns.ttl.make on an invalid TTL) are not followed")
+    # ---------------------------------------------------------------- R-07.10
+    LAWS = {"union_update": "noop", "intersection_update": "noop", "difference_update": "clear", "symmetric_difference_update": "clear", "update": "noop",
+            "issubset": "True", "issuperset": "True", "__eq__": "True", "__le__": "True", "__ge__": "True", "__ne__": "False", "__lt__": "False", "__gt__": "False"}
+    setc = model.cls("dns.set.Set")
+    n10 = 0
+    for mn, fm in sorted(setc.methods.items()):
+        for nd in ast.walk(fm.node):
+            if not (isinstance(nd, ast.If) and set(atoms(normalise_compare(nd.test))) & {A("self", "is", "other"), A("other", "is", "self")}):
+                continue
+            n10 += 1
+            body = [b for b in nd.body if not (isinstance(b, ast.Expr) and isinstance(b.value, ast.Constant))]
+            if len(body) == 1 and isinstance(body[0], ast.Return) and (body[0].value is None or (isinstance(body[0].value, ast.Constant) and body[0].value.value is None)):
+                got = "noop"
+            elif len(body) >= 1 and isinstance(body[0], ast.Expr) and src(body[0].value) == "self.items.clear()" and all(isinstance(b, ast.Return) and b.value is None for b in body[1:]):
+                got = "clear"
+            elif len(body) == 1 and isinstance(body[0], ast.Return) and isinstance(body[0].value, ast.Constant) and isinstance(body[0].value.value, bool):
+                got = str(body[0].value.value)
+            else:
+                got = "other: " + " ; ".join(stmt_key(b) for b in body)[:60]
+            want = LAWS.get(mn)
+            rep.check(want is not None and got == want, "R-07.10", fm.qualname, where(fm, nd), f"{mn}(s, s): {got}",
+                      (f"{mn}(s, s) does `{got}` but the law asks for `{want}`" if want else
+                       f"{mn} answers `{got}` for `self is other` whatever the set holds: for isdisjoint that is wrong for the empty set (s.isdisjoint(s) must be True exactly when s is empty); no identity shortcut is known for this method"),
+                      stmt="identity-law")
+    rep.floor("R-07.10", n10, 4)
+    # ---------------------------------------------------------------- R-07.11
+    rdsc = model.cls("dns.rdataset.Rdataset")
+    mt = rdsc.methods["match"]
+    ident = [a.arg for a in mt.node.args.args if a.arg != "self"]
+    eq11 = rdsc.methods["__eq__"]
+    refused = set()
+    for nd in ast.walk(eq11.node):
+        if isinstance(nd, ast.If) and any(isinstance(b, ast.Return) and isinstance(b.value, ast.Constant) and b.value.value is False for b in nd.body):
+            for (l_, o_, r_) in atoms(normalise_compare(nd.test)):
+                if o_ == "!=" and {l_.split(".")[0], r_.split(".")[0]} == {"self", "other"} and l_.split(".", 1)[-1] == r_.split(".", 1)[-1]:
+                    refused.add(l_.split(".", 1)[-1])
+    rets11 = [r for r in ast.walk(eq11.node) if isinstance(r, ast.Return)]
+    def _deleg(rets):
+        sup = [r for r in rets if r.value is not None and src(r.value) == "super().__eq__(other)"]
+        return len(sup) == 1 and all(isinstance(r.value, ast.Constant) and r.value.value is False for r in rets if r is not sup[0])
+
+    deleg = _deleg(rets11)
+    miss11 = [i for i in ident if i not in refused]
+    rep.check(len(ident) >= 3 and not miss11 and deleg, "R-07.11", eq11.qualname, where(eq11, eq11.node), f"unequal on a difference in any of {ident}; then the members are compared",
+              (f"__eq__ does not refuse on a difference in {miss11} (the identity Rdataset.match() takes is {ident}): record sets of different {'/'.join(miss11)} with the same members are equal - e.g. the question `example. CH A` equals `example. IN A`"
+               if miss11 else "__eq__ no longer ends in super().__eq__(other) (the member comparison)"), stmt="eq-identity")
+    rr = model.cls("dns.rrset.RRset").methods["__eq__"]
+    name_cmp = any(isinstance(nd, ast.If) and A("self.name", "!=", "other.name") in atoms(normalise_compare(nd.test)) and any(isinstance(b, ast.Return) and isinstance(b.value, ast.Constant) and b.value.value is False for b in nd.body)
+                   for nd in ast.walk(rr.node))
+    rets_rr = [r for r in ast.walk(rr.node) if isinstance(r, ast.Return)]
+    rep.check(name_cmp and _deleg(rets_rr), "R-07.11", rr.qualname, where(rr, rr.node), "owner names must agree; then Rdataset.__eq__ decides",
+              "RRset.__eq__ no longer (refuses on different owner names and then delegates to Rdataset.__eq__)", stmt="eq-identity")
     rep.meta["explanation"] = (
         "Decorator census over all value classes, provenance classification (reaching definitions) of every field store in their constructors, "
         "operator-table and shape rules for equality/hash/order, aliasing-guard dominance in Set, and write-before-raise analysis of Rdataset.add. "
@@ -461,6 +515,16 @@ def run(model, rep, tier):
 
 
 WITNESSES = [
+    {"id": "c07-isdisjoint-identity-shortcut", "rule": "R-07.10", "file": "dns/set.py", "expect": "fires",
+     "old": "        for item in other.items:\n            if item in self.items:\n                return False\n        return True", "new": "        if self is other:\n            return False\n        for item in other.items:\n            if item in self.items:\n                return False\n        return True"},
+    {"id": "c07-difference-update-identity-noop", "rule": "R-07.10", "file": "dns/set.py", "expect": "fires",
+     "old": "        if self is other:  # lgtm[py/comparison-using-is]\n            self.items.clear()\n        else:\n            for item in other.items:\n                self.discard(item)", "new": "        if self is other:  # lgtm[py/comparison-using-is]\n            return\n        else:\n            for item in other.items:\n                self.discard(item)"},
+    {"id": "c07-twin-issubset-identity-true", "rule": "R-07.10", "file": "dns/set.py", "expect": "silent",
+     "old": "        for item in self.items:\n            if item not in other.items:\n                return False\n        return True", "new": "        if self is other:\n            return True\n        for item in self.items:\n            if item not in other.items:\n                return False\n        return True"},
+    {"id": "c07-rdataset-eq-ignores-class", "rule": "R-07.11", "file": "dns/rdataset.py", "expect": "fires",
+     "old": "            self.rdclass != other.rdclass\n            or self.rdtype != other.rdtype", "new": "            self.rdtype != other.rdtype"},
+    {"id": "c07-twin-rdataset-eq-separate-tests", "rule": "R-07.11", "file": "dns/rdataset.py", "expect": "silent",
+     "old": "        if (\n            self.rdclass != other.rdclass\n            or self.rdtype != other.rdtype\n            or self.covers != other.covers\n        ):\n            return False", "new": "        if self.rdclass != other.rdclass:\n            return False\n        if other.rdtype != self.rdtype or self.covers != other.covers:\n            return False"},
     {"id": "c07-intersection-swaps-operands", "rule": "R-07.9", "file": "dns/set.py", "expect": "fires",
      "old": "        obj = self._clone()\n        obj.intersection_update(other)", "new": "        if len(other.items) < len(self.items):\n            self, other = other, self\n        obj = self._clone()\n        obj.intersection_update(other)"},
     {"id": "c07-dict-aliases-without-no-copy", "rule": "R-07.8", "file": "dns/immutable.py", "expect": "fires",
